@@ -120,6 +120,7 @@ class NarrowAnalysis(Analysis):
                 # v = CONVERTER(arg): v becomes a tracked conversion result
                 st = self._link_overflow(st, l0.n, api, call)
                 st = self._link_flag(st, l0.n, call)
+                st = sdel(sdel(st, "lo:" + l0.n), "hi:" + l0.n)
                 return sset(st, "c:" + l0.n, (api, bool(safe), bool(nar), bool(nar)))
             self._count(node)
             if not safe:
@@ -146,6 +147,22 @@ class NarrowAnalysis(Analysis):
                     s, d = WIDTH[src.strip()], WIDTH[dst.strip()]
                     need_rt = d[0] < s[0] or (s[2] != d[2])
                     need_nn = (not d[1]) and s[1]
+                    # an explicit range test against the limits of the target type
+                    lo, hi = sget(st, "lo:" + r0.n), sget(st, "hi:" + r0.n)
+                    if not d[2]:
+                        tmin = -(2 ** (d[0] - 1)) if d[1] else 0
+                        tmax = (2 ** (d[0] - 1) - 1) if d[1] else (2 ** d[0] - 1)
+                        if lo is not None and lo >= 0:
+                            nonneg = True
+                        if hi is not None and hi <= tmax and ((lo is not None and lo >= tmin) or (tmin == 0 and nonneg)):
+                            rt = True
+                            if hi < tmax or (lo is not None and lo > tmin and tmin != 0):
+                                self.report(node, st, "%s: range test admits [%s, %s] only, %s holds [%s, %s]" % (
+                                    (node.e.mo if node.e is not None else None) or "store",
+                                    lo if lo is not None else tmin, hi, dst.strip(), tmin, tmax),
+                                    "the explicit range test in front of the narrowing rejects values the "
+                                    "slot type can represent (an extreme of the domain raises TypeError in "
+                                    "this family only)")
                     if (need_rt and not rt) or (need_nn and not nonneg):
                         self.report(node, st, "%s: %s narrowed to %s without %s" % (
                             (node.e.mo if node.e is not None else None) or "store",
@@ -318,6 +335,30 @@ class NarrowAnalysis(Analysis):
                     if ok:
                         st = self._upd(st, y0.n, rt=True)
                     return st
+            # v OP constant: bounds that hold on this edge (a cast of v to an unsigned
+            # type in the comparison is transparent once v is known to be non-negative)
+            av = a0
+            if av is not None and av.k != "DeclRefExpr":
+                inner = strip(a)
+                while inner is not None and inner.k in ("CStyleCastExpr", "ImplicitCastExpr", "ParenExpr") and inner.kids:
+                    inner = inner.kids[-1]
+                if inner is not None and inner.k == "DeclRefExpr":
+                    f1 = sget(st, "c:" + inner.n)
+                    lo1 = sget(st, "lo:" + inner.n)
+                    if f1 is not None and (f1[3] or (lo1 is not None and lo1 >= 0)):
+                        av = inner
+            if av is not None and av.k == "DeclRefExpr" and const_int(b) is not None and \
+                    sget(st, "c:" + av.n) is not None and e0.v in ("<", ">", "<=", ">="):
+                cb2 = const_int(b)
+                op2 = e0.v if want else {"<": ">=", ">": "<=", "<=": ">", ">=": "<"}[e0.v]
+                if op2 in ("<", "<="):
+                    nh = cb2 - 1 if op2 == "<" else cb2
+                    cur = sget(st, "hi:" + av.n)
+                    st = sset(st, "hi:" + av.n, nh if cur is None else min(cur, nh))
+                else:
+                    nl = cb2 + 1 if op2 == ">" else cb2
+                    cur = sget(st, "lo:" + av.n)
+                    st = sset(st, "lo:" + av.n, nl if cur is None else max(cur, nl))
             # v < 0  false  => non-negative ;  v == -1 false => no error
             if a0 is not None and a0.k == "DeclRefExpr" and const_int(b) is not None:
                 cb = const_int(b)
